@@ -584,6 +584,49 @@ def _inline_locals(e: ast.AST, defs, depth: int = 0) -> ast.AST:
     return T().visit(_copy.deepcopy(e))
 
 
+def is_eval_name_(n: str) -> bool:
+    return n.startswith("_evaluate")
+
+
+def _inline_predicate_calls(db: ProgramDB, fn: FuncInfo, e: ast.AST, depth: int = 0) -> ast.AST:
+    """the expression with every call of a method of the same class that only computes a boolean (single-assignment locals and one `return`)
+    replaced by what it returns, the arguments substituted; `bool(x)` is `x`.  A test moved into a named helper decides the same thing."""
+    import copy as _copy
+
+    class T(ast.NodeTransformer):
+        def visit_Call(self, c):
+            self.generic_visit(c)
+            if isinstance(c.func, ast.Name) and c.func.id == "bool" and len(c.args) == 1 and not c.keywords:
+                return c.args[0]
+            if not isinstance(c.func, ast.Attribute) or fn.cls is None or depth >= 2:
+                return c
+            if isinstance(c.func.value, ast.Name) and c.func.value.id in ("self", "cls"):
+                t = fn.cls.lookup(c.func.attr)
+            else:
+                # a helper of another expression class (`self._child_.<helper>(…)`): the one class that defines a method of that name
+                owners_ = [k.methods[c.func.attr] for k in db.classes.values() if c.func.attr in k.methods and k.methods[c.func.attr].cls is k]
+                t = owners_[0] if len(owners_) == 1 and c.func.attr.startswith("_") and not is_eval_name_(c.func.attr) else None
+            if t is None:
+                return c
+            body = [st for st in t.node.body if not (isinstance(st, ast.Expr) and isinstance(st.value, ast.Constant))]
+            if not body or not isinstance(body[-1], ast.Return) or body[-1].value is None or not all(
+                    isinstance(st, ast.Assign) and len(st.targets) == 1 and isinstance(st.targets[0], ast.Name) for st in body[:-1]):
+                return c
+            ldefs = {}
+            for st in body[:-1]:
+                ldefs.setdefault(st.targets[0].id, []).append(st.value)
+            ret = _inline_locals(body[-1].value, ldefs)
+            amap = bind_args([pk for pk in fn_params(t) if pk[0] not in ("self", "cls")], c)
+
+            class S(ast.NodeTransformer):
+                def visit_Name(self, n):
+                    if isinstance(n.ctx, ast.Load) and n.id in amap:
+                        return _copy.deepcopy(amap[n.id])
+                    return n
+            return _inline_predicate_calls(db, t, S().visit(_copy.deepcopy(ret)), depth + 1)
+    return T().visit(_copy.deepcopy(e))
+
+
 # ---------------------------------------------------------------------------------- CONCLUSION-VARS-BOUND (which variables)
 def rule_conclusion_vars_which(db: ProgramDB) -> List[Instance]:
     """Which of the things a conclusion mentions are bound before it is drawn: decided by evaluating the guards of the statement
@@ -716,13 +759,13 @@ def rule_infer_mark(db: ProgramDB) -> List[Instance]:
     }
     for label, (env, want) in cases.items():
         try:
-            g = [(_inline_locals(t, defs), pol) for t, pol in (guards_of(mark, loop.body) or [])]
+            g = [(_inline_predicate_calls(db, m, _inline_locals(t, defs)), pol) for t, pol in (guards_of(mark, loop.body) or [])]
             skips = []
             for s_ in loop.body:
                 if s_ is mark or any(x is mark for x in ast.walk(s_)):
                     break
                 if isinstance(s_, ast.If) and s_.body and isinstance(s_.body[-1], ast.Continue) and not s_.orelse:
-                    skips.append(_inline_locals(s_.test, defs))
+                    skips.append(_inline_predicate_calls(db, m, _inline_locals(s_.test, defs)))
             got = all(bool(eval_bool(t, atom, env)) == pol for t, pol in g) and not any(bool(eval_bool(t, atom, env)) for t in skips)
         except (AnalysisError, KeyError) as e:
             if env["ISVAR"] is False:
@@ -739,6 +782,49 @@ def rule_infer_mark(db: ProgramDB) -> List[Instance]:
                          "term that is also the selected variable of another rule stops being constructed after that rule was abandoned once" if env.get("MARKED") else
                          "a flattened expression has no such mark (AttributeError), and a variable with a domain that is marked stops ranging over its domain, so the "
                          "rule matches nothing") if got else "its value would be taken from existing instances instead of from the conclusions"), line=mark.lineno))
+    # the sibling: infer(...) marks its selected variables itself, for the duration of its evaluation, and has to agree with the description on WHICH
+    inf = db.cls("Infer").methods.get("_evaluate__")
+    if inf is None:
+        raise AnalysisError("Infer._evaluate__ not found")
+    comps = [(a, a.value) for a in own_nodes(inf.node) if isinstance(a, ast.Assign) and isinstance(a.value, ast.ListComp) and len(a.value.generators) == 1
+             and any(isinstance(x, ast.Attribute) and x.attr == "_is_inferred_" for x in ast.walk(a.value))]
+    if not comps:
+        raise AnalysisError("Infer._evaluate__: the collection of the variables it marks was not found")
+    a_, comp = comps[0]
+    ev = unparse(comp.generators[0].target)
+    idefs = local_defs(inf)
+
+    def atom_i(e):
+        u = unparse(e)
+        if isinstance(e, ast.Call) and dotted(e.func) == "isinstance" and len(e.args) == 2 and unparse(e.args[0]) == ev and unparse(e.args[1]).endswith("Variable"):
+            return "ISVAR"
+        if u == f"{ev}._is_inferred_":
+            return "MARKED"
+        if u == f"{ev}._domain_source_":
+            return "SOURCE"
+        if u == f"{ev}._domain_is_the_registry_":
+            return "REGISTRY"
+        if isinstance(e, ast.Call) and dotted(e.func) == "any" and e.args and isinstance(e.args[0], ast.GeneratorExp) and ev in unparse(e.args[0].elt):
+            return "TARGET"
+        if isinstance(e, ast.Compare) and len(e.ops) == 1 and isinstance(e.ops[0], (ast.In, ast.NotIn)) and unparse(e.left) == ev:
+            return ("!" if isinstance(e.ops[0], ast.NotIn) else "") + "TARGET"
+        return None
+    for label, (env, want) in cases.items():
+        try:
+            tests = [_inline_predicate_calls(db, inf, _inline_locals(t, {k: v for k, v in idefs.items() if k != ev})) for t in comp.generators[0].ifs]
+            got = all(bool(eval_bool(t, atom_i, env)) for t in tests)
+        except (AnalysisError, KeyError) as e:
+            if env["ISVAR"] is False:
+                got = True
+            else:
+                out.append(inst("INFER-MARK", UNDECIDED, inf, f"{inf.short}[{label}]", f"conditions not decidable: {e}", line=a_.lineno))
+                continue
+        ok = got == want
+        out.append(inst("INFER-MARK", HOLDS if ok else VIOLATION, inf, f"{inf.short}[{label}]",
+                        f"{'marked' if got else 'not marked'} for the duration of the evaluation, as the description does" if ok else
+                        f"{label} is {'marked as inferred' if got else 'not marked as inferred'} by infer(...), unlike by the description of a rule written with an(...): "
+                        + ("a variable with a supplied domain that is merely selected next to the constructed one stops ranging over its domain - "
+                           "infer(set_of([Pair(a=b1, b=b2), b1], …)) returns nothing" if got else "its value would be taken from existing instances"), line=a_.lineno))
     return out
 
 
